@@ -8,6 +8,7 @@ import (
 	"go/types"
 	"os"
 	"sort"
+	"strings"
 
 	"golang.org/x/tools/go/packages"
 	"golang.org/x/tools/go/ssa"
@@ -57,6 +58,16 @@ func evalRangeTable(p *Program, pk *packages.Package, e ast.Expr, depth int) (*r
 		dpk := p.All[obj.Pkg().Path()]
 		if dpk == nil {
 			return nil, nil, fmt.Errorf("package %s not loaded", obj.Pkg().Path())
+		}
+		// a table of the repository must not be assigned anywhere but by its initialiser
+		if strings.HasPrefix(obj.Pkg().Path(), modulePath) {
+			if sp := p.SSAPkg(relOf(obj.Pkg().Path())); sp != nil {
+				if g, ok := sp.Members[obj.Name()].(*ssa.Global); ok {
+					if sts := storesToGlobal(p, g); len(sts) > 0 {
+						return nil, nil, fmt.Errorf("table %s is reassigned at %s", obj.Name(), p.Pos(sts[0].Pos()))
+					}
+				}
+			}
 		}
 		for _, f := range dpk.Syntax {
 			for _, d := range f.Decls {
@@ -177,6 +188,15 @@ func runC10(p *Program, r *Report) {
 	for i, st := range stores {
 		e := pv.Of(st.Store.Val)
 		c := fmt.Sprintf("safehtml.HTMLEscaped#store%d", i)
+		e = peelConv(e)
+		if calleeIs(e, "html.EscapeString") && len(e.Args) == 1 {
+			// conversions between string types (a named type for coerced text) change nothing
+			inner := peelConv(e.Args[0])
+			if inner.Op == "call" && len(inner.Args) == 1 {
+				inner = &Expr{Op: inner.Op, Name: inner.Name, Fn: inner.Fn, Obj: inner.Obj, Val: inner.Val, Type: inner.Type, Args: []*Expr{peelConv(inner.Args[0])}}
+			}
+			e = &Expr{Op: e.Op, Name: e.Name, Fn: e.Fn, Obj: e.Obj, Val: e.Val, Type: e.Type, Args: []*Expr{inner}}
+		}
 		ok := calleeIs(e, "html.EscapeString") && len(e.Args) == 1 && e.Args[0].Op == "call" && e.Args[0].Fn != nil &&
 			len(e.Args[0].Args) == 1 && e.Args[0].Args[0].Op == "param" && e.Args[0].Args[0].Idx == 0
 		// the coercer written as one expression that the provenance view has inlined: strings.Map(f, text)
